@@ -110,6 +110,17 @@ fn new_obs(linger: usize) -> Arc<Obs> {
 
 static MD: Metadata<'static> = Metadata::new("c20", Level::INFO, None);
 
+struct UnrelatedPanic;
+/// Runs its closure when dropped (to call into the code under test while the thread is unwinding).
+struct OnDrop<F: FnOnce()>(Option<F>);
+impl<F: FnOnce()> Drop for OnDrop<F> {
+    fn drop(&mut self) {
+        if let Some(f) = self.0.take() {
+            f()
+        }
+    }
+}
+
 fn emit(w: &dyn Recorder, kind: u64) -> Option<Counter> {
     let key = Key::from_static_name("c20");
     match kind % 6 {
@@ -136,6 +147,7 @@ pub fn run(a: &Args) -> Option<Report> {
 }
 
 fn run_trials(a: &Args) -> Report {
+    rt::quiet_panics();
     let mut rep = Report::new("C20", &a.leg, a.seed);
     let mut r = Rng::new(a.shard_seed());
     let miri = cfg!(miri);
@@ -153,6 +165,7 @@ fn run_trials(a: &Args) -> Report {
         let recover_by_drop = r.chance(1, 3);
         let mode = if miri { 9 } else { t % 3 };
         let long_wait = mode == 0 && !recover_by_drop && r.chance(1, 100);
+        let hold_recoverer = r.chance(1, 2);
         // role 0 = recoverer, roles 1.. = emitters
         let mut rules = Vec::new();
         if mode == 0 {
@@ -165,6 +178,11 @@ fn run_trials(a: &Args) -> Report {
                 rules.push(Rule::new(1, "recoverable.after_upgrade", 1, 0, "recoverable.into_inner.spin", if long_wait { 64 } else { 1 }));
             }
             rules.push(Rule::new(0, "@start", 1, 1, "recoverable.after_upgrade", 1));
+            if !recover_by_drop && !long_wait && hold_recoverer {
+                // the recoverer, having failed once, is held at the spin point until emitter 1 has left for good: the
+                // last reference goes away between the failed attempt and whatever into_inner does next
+                rules.push(Rule::new(0, "recoverable.into_inner.spin", 1, 1, "@done", 1));
+            }
         }
         let policy = match mode {
             0 => Policy::GateRandom(rules, 1, 4, 2),
@@ -193,7 +211,22 @@ fn run_trials(a: &Args) -> Report {
                     CUR_EMISSION.with(|c| c.set(id));
                     let call = o.stamp.fetch_add(1, Ordering::SeqCst);
                     let kind = r.below(12);
-                    match rt::catch(std::panic::AssertUnwindSafe(|| emit(&*w, kind))) {
+                    // one emission in eight is made from a destructor while this thread unwinds from an unrelated
+                    // (caught) panic: the handle is alive, so it must reach the recorder like any other
+                    let unwinding = r.chance(1, 8);
+                    let do_emit = || {
+                        if unwinding {
+                            let mut slot: Option<Option<Counter>> = None;
+                            let _ = std::panic::catch_unwind(std::panic::AssertUnwindSafe(|| {
+                                let _g = OnDrop(Some(|| slot = Some(emit(&*w, kind))));
+                                std::panic::panic_any(UnrelatedPanic);
+                            }));
+                            slot.expect("destructor ran")
+                        } else {
+                            emit(&*w, kind)
+                        }
+                    };
+                    match rt::catch(std::panic::AssertUnwindSafe(do_emit)) {
                         Ok(Some(h)) => handles.push((h, call)),
                         Ok(None) => {}
                         Err(m) => panics.push(m),
@@ -206,7 +239,9 @@ fn run_trials(a: &Args) -> Report {
         }
         let o2 = obs.clone();
         let delay = r.below(30);
+        let (rtx, rrx) = std::sync::mpsc::channel::<(u64, u64, usize, Option<String>)>();
         let rh = rt::spawn_role(&ctx, 0, r.next_u64(), move || {
+            let res = (move || {
             for _ in 0..delay {
                 std::thread::yield_now();
             }
@@ -236,8 +271,9 @@ fn run_trials(a: &Args) -> Report {
             }
             let ret = o2.stamp.fetch_add(1, Ordering::SeqCst);
             (call, ret, inside_at_return, None)
+            })();
+            let _ = rtx.send(res);
         });
-        let (rcall, rret, inside_at_return, recover_panic): (u64, u64, usize, Option<String>) = rh.join().unwrap();
         let mut emissions = Vec::new();
         let mut handles = Vec::new();
         let mut emit_panics: Vec<String> = Vec::new();
@@ -247,6 +283,20 @@ fn run_trials(a: &Args) -> Report {
             handles.extend(hh);
             emit_panics.extend(pp);
         }
+        // bounded progress: every emitter has been joined, so nothing can be inside the recorder or hold a reference to
+        // it any more; the recovery has nothing left to wait for
+        let (rcall, rret, inside_at_return, recover_panic): (u64, u64, usize, Option<String>) = match rrx.recv_timeout(std::time::Duration::from_secs(if miri { 600 } else { 20 })) {
+            Ok(x) => {
+                let _ = rh.join();
+                x
+            }
+            Err(_) => {
+                ctx.abort.store(true, Ordering::SeqCst);
+                rep.violation("C20:recovery-never-returned", jo! {"what" => "all emitter threads had finished and been joined (no emission inside the recorder, no reference held), yet the recovery had not returned 20 s later", "recover_by" => if recover_by_drop {"drop(handle)"} else {"into_inner"}, "emitters" => nemit, "emissions_each" => per, "schedule_mode" => mode, "recoverer_held_at_first_failed_attempt_until_emitter_left" => hold_recoverer});
+                // the stuck thread is left behind (it owns the handle); stop this leg here
+                break;
+            }
+        };
         ctx.abort.store(true, Ordering::SeqCst);
         if ctx.expired.load(Ordering::SeqCst) > 0 {
             rep.inconclusive("gate expired");
